@@ -11,12 +11,8 @@ Import ListNotations.
 
 Lemma unspec_ok_zero_std e : unspec_ok e = true -> zero_std (env_of_decl e) = true.
 Proof.
-  unfold unspec_ok, env_of_decl, zero_std. destruct (ed_options e) as [|[[n d] inf] r]; [reflexivity|].
-  destruct (has_suffix unspecified n); [|reflexivity]. cbn [ee_zero ee_prefix]. unfold with_prefix. cbn [ee_prefix].
-  intro H. apply orb_true_iff in H as [H|H].
-  - apply str_eqb_eq in H. subst n. rewrite has_prefix_app. apply str_eqb_refl.
-  - apply andb_true_iff in H as [H1 H2]. apply str_eqb_eq in H1. subst n. apply negb_true_iff in H2. rewrite H2.
-    apply str_eqb_refl.
+  intros _. unfold env_of_decl, zero_std. destruct (ed_options e) as [|[[n d] inf] r]; [reflexivity|].
+  destruct (is_zero_opt (ed_prefix e) n) eqn:Ez; [|reflexivity]. cbn [ee_zero ee_prefix]. exact Ez.
 Qed.
 
 Theorem c04_inline_enum here idx d i c :
